@@ -311,6 +311,11 @@ func runC07(c *fw.Ctx) {
 	res := c.Res
 	// the storage-proof half (closures driven directly + Lean storage-proof model) is the sub-check C07P
 	defer func() {
+		if r := fw.Lookup("C07R"); r != nil {
+			rule := c.Res.Rule
+			r(c)
+			c.Res.Rule = rule + " PLUS (C07R): " + c.Res.Rule
+		}
 		if sp := fw.Lookup("C07P"); sp != nil {
 			rule := c.Res.Rule
 			sp(c)
